@@ -1,6 +1,334 @@
-//! Lock / atomic / channel skeletons → `Gen/Skel.lean`.
-use crate::Ctx;
+//! Effect skeletons → `Gen/Skel.lean`.
+//!
+//! For every listed function the body is linearised in evaluation order into tokens: calls
+//! (method / function / macro names that are not on the ignore list of pure helpers), lock-guard
+//! acquisitions and releases following Rust's drop-scope rules for the forms that occur, atomic
+//! orderings, branch / loop / closure structure and early exits. Everything else is dropped and
+//! local names never appear, so refactorings that do not change which effects happen in which
+//! order inside which lock scope leave the skeleton unchanged. The vocabulary `Sym` is generated
+//! from the names found (a new effect name changes it and every comparison that mentions it).
 
-pub fn gen(_ctx: &mut Ctx) -> Result<String, String> {
-    Ok("namespace AmVerif.Gen\nend AmVerif.Gen\n".into())
+use crate::{find::{find_fn, find_nested_fn}, Ctx};
+use quote::ToTokens;
+use std::collections::BTreeSet;
+use syn::{Expr, Pat, Stmt};
+
+const IGNORE: &[&str] = &[
+    "clone", "as_ref", "as_mut", "into", "from", "to_owned", "to_string", "iter", "into_iter", "map", "filter_map", "flat_map", "ok", "ok_or",
+    "ok_or_else", "is_ok", "is_err", "is_some", "is_none", "unwrap", "unwrap_or", "unwrap_or_else", "expect", "as_borrowed", "hash", "finish",
+    "build_hasher", "len", "id", "type_id", "new_with", "inner", "extend_lifetime", "as_ptr", "cast", "cloned", "copied", "collect", "rev",
+    "trace", "debug", "info", "warn", "error", "Some", "Ok", "Err", "new", "of", "as_str", "as_dependency", "as_dir_entry", "is_empty",
+    "format", "format_args", "size_hint", "next", "or", "map_err", "with_capacity", "cfg", "debug_assert_eq", "assert", "vec", "deref",
+    "type_name", "default", "empty", "as_any_cache", "_as_any_cache", "from_type", "parent", "components", "strip_prefix", "to_str", "file_stem",
+    "is_dir", "is_file", "join", "reset", "is_hot_reloaded", "reloader", "assets", "get_source", "to_vec", "add", "size_of_val", "for_value",
+    "type_id_of", "matches", "Layout", "from_size_align_unchecked", "extend_layout", "unwrap_unchecked", "borrowed", "into_owned", "get_inner_layout",
+    "handle_alloc_error", "as_bytes", "borrow", "into_boxed_slice", "needs_drop", "Self", "Record", "NonNull", "path", "kind", "starts_with", "push_str", "rfind",
+];
+
+const LOCKS: &[&str] = &["read", "write", "lock", "borrow", "borrow_mut", "try_read", "try_write", "try_lock"];
+
+#[derive(Clone, Debug)]
+enum Tok {
+    Call(String),
+    Acq(String, usize),
+    Rel(usize),
+    RetGuard(usize),
+    Branch(Vec<Vec<Tok>>),
+    Loop(Vec<Tok>),
+    Closure(Vec<Tok>),
+    Ret, Brk, Cont, Try,
+}
+
+struct Sk {
+    toks: Vec<Tok>,
+    next_guard: usize,
+    /// live named guards of the enclosing blocks: (variable name, guard id), innermost last
+    scopes: Vec<Vec<(String, usize)>>,
+    /// temporaries acquired in the statement being processed
+    temps: Vec<usize>,
+    syms: BTreeSet<String>,
+}
+
+fn last_seg(p: &syn::Path) -> String { p.segments.last().map(|s| s.ident.to_string()).unwrap_or_default() }
+
+fn ordering_suffix(args: &syn::punctuated::Punctuated<Expr, syn::Token![,]>) -> String {
+    for a in args.iter() {
+        if let Expr::Path(p) = a {
+            let segs: Vec<String> = p.path.segments.iter().map(|s| s.ident.to_string()).collect();
+            if segs.len() == 2 && segs[0] == "Ordering" { return format!("_{}", segs[1]); }
+        }
+    }
+    String::new()
+}
+
+impl Sk {
+    fn call(&mut self, name: &str) {
+        if IGNORE.contains(&name) { return; }
+        let n = name.to_string();
+        self.syms.insert(n.clone());
+        self.toks.push(Tok::Call(n));
+    }
+
+    fn sub(&mut self, f: impl FnOnce(&mut Sk)) -> Vec<Tok> {
+        let saved = std::mem::take(&mut self.toks);
+        f(self);
+        std::mem::replace(&mut self.toks, saved)
+    }
+
+    fn block(&mut self, b: &syn::Block) {
+        self.scopes.push(vec![]);
+        for st in &b.stmts { self.stmt(st); }
+        let live = self.scopes.pop().unwrap();
+        for (_, g) in live.into_iter().rev() { self.toks.push(Tok::Rel(g)); }
+    }
+
+    fn end_statement(&mut self) {
+        for g in std::mem::take(&mut self.temps).into_iter().rev() { self.toks.push(Tok::Rel(g)); }
+    }
+
+    /// Does evaluating `e` yield a lock guard that a `let` would bind (guard at the head of the
+    /// expression, possibly under `&`, `&mut`, `*`, a closure returning it via `.map`, or `wait_while`)?
+    fn guard_head(e: &Expr) -> bool {
+        match e {
+            Expr::MethodCall(m) => {
+                let n = m.method.to_string();
+                if LOCKS.contains(&n.as_str()) && m.args.is_empty() && (!n.starts_with("borrow") || matches!(&*m.receiver, Expr::Field(_))) { return true; }
+                if n == "wait_while" || n == "wait" { return true; }
+                if n == "map" || n == "unwrap_or_else" || n == "unwrap" || n == "expect" {
+                    // `opt.map(|d| d.lock.read())`, `lock().unwrap()`
+                    if n == "map" { if let Some(Expr::Closure(c)) = m.args.first() { return Self::guard_head(&c.body); } }
+                    return Self::guard_head(&m.receiver);
+                }
+                false
+            }
+            Expr::Reference(r) => Self::guard_head(&r.expr),
+            Expr::Unary(u) if matches!(u.op, syn::UnOp::Deref(_)) => Self::guard_head(&u.expr),
+            Expr::Paren(p) => Self::guard_head(&p.expr),
+            Expr::Call(c) => { // wrap(self.0.read())
+                if let Expr::Path(p) = &*c.func { if last_seg(&p.path) == "wrap" { return c.args.first().map_or(false, Self::guard_head); } }
+                false
+            }
+            _ => false,
+        }
+    }
+
+    fn stmt(&mut self, st: &Stmt) {
+        match st {
+            Stmt::Local(l) => {
+                if let Some(init) = &l.init {
+                    let named = match &l.pat { Pat::Ident(i) => Some(i.ident.to_string()), Pat::Type(t) => match &*t.pat { Pat::Ident(i) => Some(i.ident.to_string()), _ => None }, _ => None };
+                    let before = self.temps.len();
+                    self.expr(&init.expr);
+                    if let (Some(name), true) = (&named, Self::guard_head(&init.expr)) {
+                        // the guard acquired last by this initialiser is bound: it lives to the end of the block
+                        if self.temps.len() > before {
+                            let g = self.temps.pop().unwrap();
+                            // rebinding (wait_while(guard, ..) returns the guard again): keep one entry per name
+                            let scope = self.scopes.last_mut().unwrap();
+                            scope.retain(|(n, _)| n != name);
+                            scope.push((name.clone(), g));
+                        } else if let Some(scope) = self.scopes.last_mut() {
+                            // e.g. `let guard = condvar.wait_while(guard, ..)`: same guard, new binding
+                            let _ = scope;
+                        }
+                    }
+                    if let Some((_, els)) = &init.diverge { let t = self.sub(|s| s.expr(els)); self.toks.push(Tok::Branch(vec![t, vec![]])); }
+                }
+                self.end_statement();
+            }
+            Stmt::Expr(e, _) => { self.expr(e); self.end_statement(); }
+            Stmt::Macro(m) => { self.call(&last_seg(&m.mac.path)); self.end_statement(); }
+            Stmt::Item(_) => {}
+        }
+    }
+
+    fn release_named(&mut self, name: &str) -> bool {
+        for scope in self.scopes.iter_mut().rev() {
+            if let Some(pos) = scope.iter().position(|(n, _)| n == name) {
+                let (_, g) = scope.remove(pos);
+                self.toks.push(Tok::Rel(g));
+                return true;
+            }
+        }
+        false
+    }
+
+    fn expr(&mut self, e: &Expr) {
+        match e {
+            Expr::MethodCall(m) => {
+                self.expr(&m.receiver);
+                let n = m.method.to_string();
+                // `wait_while(guard, cond)`: the guard argument is moved in and handed back
+                for a in m.args.iter() { if !(n.starts_with("wait") && matches!(a, Expr::Path(_))) { self.expr(a); } }
+                // `x.borrow()` / `x.borrow_mut()` is a RefCell lock only on a field (`self.map.borrow()`), not on a key
+                let is_lock = LOCKS.contains(&n.as_str()) && m.args.is_empty() && (!n.starts_with("borrow") || matches!(&*m.receiver, Expr::Field(_)));
+                if is_lock {
+                    let g = self.next_guard; self.next_guard += 1;
+                    self.syms.insert(n.clone());
+                    self.toks.push(Tok::Acq(n, g));
+                    self.temps.push(g);
+                } else {
+                    let suffix = ordering_suffix(&m.args);
+                    self.call(&format!("{n}{suffix}"));
+                }
+            }
+            Expr::Call(c) => {
+                let name = match &*c.func { Expr::Path(p) => last_seg(&p.path), other => { self.expr(other); String::new() } };
+                if name == "drop" && c.args.len() == 1 {
+                    if let Expr::Path(p) = &c.args[0] { if self.release_named(&last_seg(&p.path)) { return; } }
+                }
+                for a in c.args.iter() { self.expr(a); }
+                if !name.is_empty() {
+                    let suffix = ordering_suffix(&c.args);
+                    self.call(&format!("{name}{suffix}"));
+                }
+            }
+            Expr::Macro(m) => {
+                let name = last_seg(&m.mac.path);
+                // look inside simple macros whose arguments are expressions
+                if let Ok(args) = m.mac.parse_body_with(syn::punctuated::Punctuated::<Expr, syn::Token![,]>::parse_terminated) {
+                    if !IGNORE.contains(&name.as_str()) { for a in args.iter() { self.expr(a); } }
+                }
+                self.call(&name);
+            }
+            Expr::If(i) => {
+                self.expr(&i.cond);
+                let t = self.sub(|s| s.block(&i.then_branch));
+                let f = match &i.else_branch { Some((_, e)) => self.sub(|s| s.expr(e)), None => vec![] };
+                self.toks.push(Tok::Branch(vec![t, f]));
+            }
+            Expr::Let(l) => self.expr(&l.expr),
+            Expr::Match(m) => {
+                self.expr(&m.expr);
+                let mut arms = vec![];
+                for a in &m.arms {
+                    arms.push(self.sub(|s| { if let Some((_, g)) = &a.guard { s.expr(g); } s.expr(&a.body); s.end_statement_in_arm(); }));
+                }
+                self.toks.push(Tok::Branch(arms));
+            }
+            Expr::Block(b) => self.block(&b.block),
+            Expr::Unsafe(u) => self.block(&u.block),
+            Expr::Loop(l) => { let t = self.sub(|s| s.block(&l.body)); self.toks.push(Tok::Loop(t)); }
+            Expr::While(w) => { let t = self.sub(|s| { s.expr(&w.cond); s.block(&w.body) }); self.toks.push(Tok::Loop(t)); }
+            Expr::ForLoop(f) => { self.expr(&f.expr); let t = self.sub(|s| s.block(&f.body)); self.toks.push(Tok::Loop(t)); }
+            Expr::Closure(c) => { let t = self.sub(|s| s.expr(&c.body)); if !t.is_empty() { self.toks.push(Tok::Closure(t)); } }
+            Expr::Try(t) => { self.expr(&t.expr); self.toks.push(Tok::Try); }
+            Expr::Return(r) => { if let Some(e) = &r.expr { self.expr(e); } self.toks.push(Tok::Ret); }
+            Expr::Break(b) => { if let Some(e) = &b.expr { self.expr(e); } self.toks.push(Tok::Brk); }
+            Expr::Continue(_) => self.toks.push(Tok::Cont),
+            Expr::Assign(a) => { self.expr(&a.right); self.expr(&a.left); if matches!(&*a.left, Expr::Unary(_)) { self.call("assign_deref"); } }
+            Expr::Binary(b) => { self.expr(&b.left); self.expr(&b.right); }
+            Expr::Unary(u) => self.expr(&u.expr),
+            Expr::Reference(r) => self.expr(&r.expr),
+            Expr::Paren(p) => self.expr(&p.expr),
+            Expr::Group(g) => self.expr(&g.expr),
+            Expr::Field(f) => self.expr(&f.base),
+            Expr::Index(i) => { self.expr(&i.expr); self.expr(&i.index); }
+            Expr::Cast(c) => self.expr(&c.expr),
+            Expr::Tuple(t) => for x in t.elems.iter() { self.expr(x) },
+            Expr::Array(a) => for x in a.elems.iter() { self.expr(x) },
+            Expr::Struct(s) => {
+                for f in s.fields.iter() {
+                    // a named guard moved into a returned struct leaves the function alive
+                    if let Expr::Path(p) = &f.expr {
+                        let name = last_seg(&p.path);
+                        let mut moved = None;
+                        for scope in self.scopes.iter_mut().rev() { if let Some(pos) = scope.iter().position(|(n, _)| *n == name) { moved = Some(scope.remove(pos).1); break; } }
+                        if let Some(g) = moved { self.toks.push(Tok::RetGuard(g)); continue; }
+                    }
+                    self.expr(&f.expr);
+                }
+            }
+            Expr::Range(r) => { if let Some(a) = &r.start { self.expr(a); } if let Some(b) = &r.end { self.expr(b); } }
+            Expr::Path(_) | Expr::Lit(_) => {}
+            other => { self.call(&format!("unsupported_{}", other.to_token_stream().to_string().split_whitespace().next().unwrap_or("expr"))); }
+        }
+    }
+
+    fn end_statement_in_arm(&mut self) {}
+}
+
+fn lean_toks(toks: &[Tok]) -> String {
+    let parts: Vec<String> = toks.iter().map(|t| match t {
+        Tok::Call(n) => format!(".call .{}", sym(n)),
+        Tok::Acq(n, g) => format!(".acq .{} {g}", sym(n)),
+        Tok::Rel(g) => format!(".rel {g}"),
+        Tok::RetGuard(g) => format!(".retGuard {g}"),
+        Tok::Branch(alts) => format!(".branch [{}]", alts.iter().map(|a| lean_toks(a)).collect::<Vec<_>>().join(", ")),
+        Tok::Loop(b) => format!(".loop {}", lean_toks(b)),
+        Tok::Closure(b) => format!(".closure {}", lean_toks(b)),
+        Tok::Ret => ".ret".into(), Tok::Brk => ".brk".into(), Tok::Cont => ".cont".into(), Tok::Try => ".try_".into(),
+    }).collect();
+    format!("[{}]", parts.join(", "))
+}
+
+fn sym(n: &str) -> String { format!("s_{}", n.replace(|c: char| !c.is_alphanumeric() && c != '_', "_")) }
+
+/// (file, owner, function, nested-in) — the functions whose effect order the interleaving models rely on.
+const FUNCS: &[(&str, &str, &str, &str)] = &[
+    ("src/cache.rs", "AssetMap for AssetMap", "get", ""),
+    ("src/cache.rs", "AssetMap for AssetMap", "insert", ""),
+    ("src/cache.rs", "AssetMap for AssetMap", "contains_key", ""),
+    ("src/cache.rs", "AssetMap", "take", ""),
+    ("src/cache.rs", "AssetMap", "clear", ""),
+    ("src/local_cache.rs", "AssetMap for AssetMap", "get", ""),
+    ("src/local_cache.rs", "AssetMap for AssetMap", "insert", ""),
+    ("src/local_cache.rs", "AssetMap for AssetMap", "contains_key", ""),
+    ("src/anycache.rs", "RawCache", "add_asset", ""),
+    ("src/anycache.rs", "Cache for T", "load_entry", ""),
+    ("src/anycache.rs", "Cache for T", "load_owned_entry", ""),
+    ("src/anycache.rs", "Cache for T", "get_cached_entry_inner", ""),
+    ("src/anycache.rs", "CacheExt", "add_any", ""),
+    ("src/anycache.rs", "CacheExt", "_get_or_insert", ""),
+    ("src/anycache.rs", "AnyCache", "reload_untyped", ""),
+    ("src/asset.rs", "", "load_and_record", ""),
+    ("src/entry.rs", "UntypedEntry", "write", ""),
+    ("src/entry.rs", "EntryStorage", "read", ""),
+    ("src/entry.rs", "EntryStorage", "get", ""),
+    ("src/hot_reloading/records.rs", "", "record", ""),
+    ("src/hot_reloading/records.rs", "", "no_record", ""),
+    ("src/hot_reloading/records.rs", "", "add_record", ""),
+    ("src/hot_reloading/records.rs", "CellGuard", "replace", ""),
+    ("src/hot_reloading/records.rs", "Drop for CellGuard", "drop", ""),
+    ("src/hot_reloading/dependencies.rs", "DepsGraph", "insert", ""),
+    ("src/hot_reloading/dependencies.rs", "DepsGraph", "visit", ""),
+    ("src/hot_reloading/dependencies.rs", "DepsGraph", "reload", ""),
+    ("src/hot_reloading/dependencies.rs", "DepsGraph", "topological_sort_from", ""),
+    ("src/hot_reloading/dependencies.rs", "TopologicalSort", "into_iter", ""),
+    ("src/hot_reloading/paths.rs", "", "run_update", ""),
+    ("src/hot_reloading/paths.rs", "HotReloadingData", "handle_events", ""),
+    ("src/hot_reloading/paths.rs", "HotReloadingData", "update_if_local", ""),
+    ("src/hot_reloading/paths.rs", "HotReloadingData", "use_static_ref", ""),
+    ("src/hot_reloading/paths.rs", "HotReloadingData", "clear_local_cache", ""),
+    ("src/hot_reloading/paths.rs", "HotReloadingData", "add_asset", ""),
+    ("src/hot_reloading/mod.rs", "Answers", "get_unique_token", ""),
+    ("src/hot_reloading/mod.rs", "Answers", "notify", ""),
+    ("src/hot_reloading/mod.rs", "Answers", "wait_for_answer", ""),
+    ("src/hot_reloading/mod.rs", "HotReloader", "start", ""),
+    ("src/hot_reloading/mod.rs", "HotReloader", "reload", ""),
+    ("src/hot_reloading/mod.rs", "HotReloader", "add_asset", ""),
+    ("src/hot_reloading/mod.rs", "HotReloader", "clear", ""),
+    ("src/hot_reloading/mod.rs", "", "hot_reloading_thread", ""),
+];
+
+pub fn gen(ctx: &mut Ctx) -> Result<String, String> {
+    let mut defs = String::new();
+    let mut syms: BTreeSet<String> = BTreeSet::new();
+    for (file, owner, name, outer) in FUNCS {
+        let f = ctx.file(file)?.clone();
+        let fr = if outer.is_empty() { find_fn(&f, owner, name)? } else { find_nested_fn(&f, owner, outer, name)? };
+        let mut sk = Sk { toks: vec![], next_guard: 0, scopes: vec![], temps: vec![], syms: BTreeSet::new() };
+        sk.block(fr.block);
+        let modname = file.trim_start_matches("src/").trim_end_matches(".rs").replace(['/', '.'], "_");
+        let own = owner.replace(" for ", "_for_").replace(' ', "_");
+        let def = format!("skel_{modname}_{}{}{name}", own, if own.is_empty() { "" } else { "_" });
+        defs.push_str(&format!("/-- `{file}`: `{}{}{name}` -/\ndef {def} : List Sk := {}\n\n", owner, if owner.is_empty() { "" } else { "::" }, lean_toks(&sk.toks)));
+        syms.extend(sk.syms);
+    }
+    let mut out = String::from("import AmVerif.Model.Skel\n\nnamespace AmVerif.Gen\nopen AmVerif.Model\n\n/-- effect names found in the listed functions -/\ninductive Sym\n");
+    for s in &syms { out.push_str(&format!("  | {}\n", sym(s))); }
+    out.push_str("  deriving DecidableEq, Repr\n\nabbrev Sk := AmVerif.Model.Sk Sym\n\n");
+    out.push_str(&defs);
+    out.push_str("end AmVerif.Gen\n");
+    Ok(out)
 }
